@@ -82,8 +82,9 @@ class Panoptica_Aggregator:
         else:
             out_file_path += ".tsv"  # add extension
 
+        # one buffer per output file (aggregators may share a directory)
         out_buffer_file: Path = Path(out_file_path).parent.joinpath(
-            "panoptica_aggregator_tmp.tsv"
+            Path(out_file_path).name + ".panoptica_aggregator_tmp.tsv"
         )
         self.__output_buffer_file = out_buffer_file
 
